@@ -53,12 +53,18 @@ func (b *box) Read(p []byte) (n int, err error) {
 	if len(p) == 0 {
 		return 0, nil
 	}
-	if b.remain <= 0 {
+	// never read past the end of the box nor of an enclosing box: deliver what is left, then io.EOF
+	limit := b.remain
+	for o := b.outer; o != nil; o = o.outer {
+		if o.remain < limit {
+			limit = o.remain
+		}
+	}
+	if limit <= 0 {
 		return 0, io.EOF
 	}
-	// never read past the end of the box: deliver what is left, then io.EOF
-	if len(p) > b.remain {
-		p = p[:b.remain]
+	if len(p) > limit {
+		p = p[:limit]
 	}
 	n, err = b.reader.br.Read(p)
 	b.adjust(n)
